@@ -138,12 +138,14 @@ class C15(Check):
             logs = [(float.fromhex(a), float.fromhex(b)) for a, b in obs["logs"]]
             exp = None if obs.get("d") is None else np.array([float.fromhex(h) for h in obs["d"]])
             t = crowd.metric_term(case["label"], decarr(case["F"], 2), case["n_remove"], exp, logs=logs, argpart=obs.get("argpart"), engine=case["engine"])
+            if not (case["label"] == "pcd" and case["engine"] == "fallback"):
+                return crowd.with_tinydup(case["label"], decarr(case["F"], 2), t)
             if case["label"] == "pcd" and case["engine"] == "fallback" and not isinstance(t, tuple):
                 # model verdict for the known finding pcd/tied-max-extra-infinite: more than 2 x n_obj values of the MODEL are +inf
                 crowd._UID += 1
                 v = "pd%d" % crowd._UID; F = decarr(case["F"], 2)
                 pre = "Definition %s := Eval vm_compute in (fallback_pcd (X:=Fx) %s (%d)%%Z)." % (v, cfmat(F), case["n_remove"])
-                return pre, t, {"extra_inf": "(%d <? length (filter (fun x => PrimFloat.eqb x (pinf Fx)) %s))%%nat" % (2 * F.shape[1], v)}
+                return pre, t, {"extra_inf": "(%d <? length (filter (fun x => PrimFloat.eqb x (pinf Fx)) %s))%%nat" % (2 * F.shape[1], v), "tinydup": crowd.tinydup_term(F)}
             return t
         main = surv.survival_term(case, obs)
         pre, parts, aux = [], [main], {}
@@ -153,7 +155,7 @@ class C15(Check):
                 continue
             d = np.array([float.fromhex(h) for h in cc["d"]])
             logs = [(float.fromhex(a), float.fromhex(b)) for a, b in cc["logs"]]
-            t = crowd.metric_term(case["cf"], F, cc["n_remove"], d, logs=logs, argpart=cc["argpart"], engine="compiled")
+            t = crowd.with_tinydup(case["cf"], F, crowd.metric_term(case["cf"], F, cc["n_remove"], d, logs=logs, argpart=cc["argpart"], engine="compiled"))
             if isinstance(t, tuple):
                 pre.append(t[0]); parts.append(t[1])
                 for k, v in t[2].items():
@@ -167,6 +169,9 @@ class C15(Check):
 
     def known(self, case, obs, msg):
         a = getattr(self, "aux", {}).get(getattr(self, "cur", None), {})
+        Fk = decarr(case["F"], 2) if case.get("kind") == "dvec" else np.array(case["F"], dtype=float)
+        if a.get("tinydup") and len(np.unique(Fk, axis=0)) == len(Fk) and msg.split(":")[0] in ("C15-boundary", "C15-pruning", "C15-oneshot"):
+            return "metrics/dup-eps-absolute"      # see C13: the model's duplicate filter flags a point of a front of distinct points
         if case.get("kind") == "dvec":
             if case["engine"] == "compiled" and case["label"] == "pcd" and a.get("oob"):
                 return "compiled/pcd/OOB"
